@@ -145,6 +145,18 @@ def run_case(case):
         if any(l[0] in ("cx", "ccx", "mcx") for l in seq):
             nontriv += 1
         probs = check_circuit(qc, n)
+        if not probs and 1 <= len(seq) <= 3:
+            # history: the same circuit object, last gate replaced (length unchanged), decompiled again
+            for alt in (A[0], A[len(A) // 2], A[-2 if len(A) > 1 else 0]):
+                if alt == seq[-1]:
+                    continue
+                qc.gates.pop()
+                circs.build(qc, [alt])
+                rows += 1 + (1 << n)
+                p2 = check_circuit(qc, n)
+                if p2:
+                    probs = ["after replacing the last gate by %s%s on the same circuit object: %s" % (alt[0], list(alt[1:]), p2[0])]
+                    break
         if probs:
             bad.append({"circuit": circs.text(A, idxs), "n": n, "problem": probs[0]})
             if len(bad) >= 20:
